@@ -349,6 +349,28 @@ def main(chk):
     except Exception as e:
       chk.violation(key, f'raised {type(e).__name__}: {str(e)[:200]}', {})
 
+  # ---- a bare Variable next to a Module in the Carry of nnx.scan: the caller's objects end as the Python loop leaves them
+  class CarryM(nnx.Module):
+    def __init__(self):
+      self.c = nnx.BatchStat(jnp.asarray(0.0))
+  for order in ('variable-first', 'module-first'):
+    key = f'C08:scan:carry-of-variable-and-module:{order}'
+    chk.count(key)
+    try:
+      v, m = nnx.BatchStat(jnp.asarray(1.0)), CarryM()
+
+      def vm_body(carry, x):
+        v_, m_ = carry if order == 'variable-first' else carry[::-1]
+        v_.value = v_.value + x
+        m_.c.value = m_.c.value + 2 * x
+        return carry, x
+      nnx.scan(vm_body, in_axes=(nnx.Carry, 0), out_axes=(nnx.Carry, 0))((v, m) if order == 'variable-first' else (m, v), jnp.arange(3.0))
+      got = (float(v.value), float(m.c.value))
+      if got != (4.0, 6.0):
+        chk.violation(key + ':caller-objects-not-updated', f'after nnx.scan the caller\'s (Variable, Module.c) hold {got}; the Python loop leaves (4.0, 6.0)', {})
+    except Exception as e:
+      chk.violation(key, f'raised {type(e).__name__}: {str(e)[:200]}', {})
+
   total = 0
   for mode in ('vmap', 'scan', 'grad', 'alias', 'carry2'):
     res = tlc.require_ok(tlc.run('NnxLoop', f'NnxLoop_{mode}.cfg', workers=1, timeout=900), f'NnxLoop {mode}')
